@@ -240,13 +240,13 @@ def gen_case(r, ctx, big=False):
         ttag.append("coincident")
     data, fill, mkind, sentinel = gen_data(r, n, src["shape"])
     # radius
-    typical = spread * 111e3 * r.choice([0.02, 0.1, 0.3, 1.0, 3.0])
+    typical = spread * 111e3 * r.choice([0.05, 0.3, 1.0, 1.0, 3.0, 3.0])
     u = r.random()
     rk = "typical"
     radius = typical
-    if u < 0.08:
+    if u < 0.05:
         radius, rk = r.choice([1e-3, 1.0, 1e-9]), "tiny"
-    elif u < 0.12:
+    elif u < 0.08:
         radius, rk = 0, "zero"
     elif u < 0.24:
         radius, rk = r.choice([1e8, 2e7, 1.3e7, 1e30]), "huge"
@@ -267,6 +267,29 @@ def gen_case(r, ctx, big=False):
             "data": "%s/k%d/%s/%s" % (data["dtype"], data["k"], mkind, data["layout"]),
             "fill": "None" if fill is None else ("nan" if fill != fill else "number"), "sentinel": sentinel}
     return case, tags
+
+
+def fixed_cases():
+    """Deterministic cases: the inputs of the two known findings / Coq refutation witnesses, and plain sanity cases."""
+    def sw(lons, lats, shape=None):
+        return {"kind": "swath", "shape": shape or [len(lons)], "lons": lons, "lats": lats, "dtype": "float64"}
+    base = {"region": "equator0", "radius": "typical", "sentinel": False}
+    out = []
+    out.append(({"src": sw([0.0, 1.0, 2.0], [0.0, 0.0, 0.0]), "tgt": sw([0.1], [0.0]), "radius": 50000,
+                 "data": {"dtype": "uint8", "k": 0, "values": [[255], [7], [9]], "mask": None, "layout": "flat"}, "fill": None},
+                dict(base, src="swath", tgt="swath", data="uint8/k0/plain/flat", fill="None", sentinel=True)))
+    out.append(({"src": sw([0.0, 1.0], [0.0, 0.0]), "tgt": sw([0.1, 0.9, 0.2, 5.0], [0.0] * 4, [2, 2]), "radius": 50000,
+                 "data": {"dtype": "float64", "k": 1, "values": [[5.0], [7.0]], "mask": [[0], [1]], "layout": "flat"}, "fill": 0},
+                dict(base, src="swath", tgt="swath", data="float64/k1/masked/flat", fill="number")))
+    out.append(({"src": sw([0.0, 1.0], [0.0, 0.0]), "tgt": sw([0.1, 0.9, 0.2, 5.0], [0.0] * 4, [2, 2]), "radius": 50000,
+                 "data": {"dtype": "float64", "k": 1, "values": [[5.0], [7.0]], "mask": None, "layout": "flat"}, "fill": 0},
+                dict(base, src="swath", tgt="swath", data="float64/k1/plain/flat", fill="number")))
+    # an invalid source sitting exactly on a target must not be used
+    out.append(({"src": sw([0.0, 200.0, 10.0, NAN], [0.0, 0.0, 0.0, 0.0]), "tgt": sw([200.0, 10.0, 0.0, 5.1], [0.0] * 4),
+                 "radius": 1e7, "data": {"dtype": "int32", "k": 2, "values": [[1, 2], [3, 4], [5, 6], [7, 8]],
+                                          "mask": [[0, 1], [1, 1], [0, 0], [1, 0]], "layout": "flat"}, "fill": None},
+                dict(base, src="swath/invalid", tgt="swath/invalid", data="int32/k2/masked/flat", fill="None", radius="huge")))
+    return out
 
 
 def gen_lattice(r, ctx):
@@ -479,7 +502,10 @@ def check_xyz(ctx, case, obs, tags):
 
 
 def run(ctx):
+    import time
     r = ctx.rng
+    t_start = time.time()
+    sys.stderr.write("  [C02] proofs+gate+assumptions done at %.1fs\n" % (t_start - ctx.t0))
     ctx.rule = ("PRNG source/target pairs (swath 1-D/2-D, GridDefinition, AreaDefinition laea/stere/merc/longlat/eqc/geos) around the poles, "
                 "the antimeridian, equator/0-meridian, Europe and random centres, spreads 0.01-30 degrees, with duplicated points, "
                 "out-of-range / NaN / inf / 1e30 coordinates on both sides, sparse sources, targets coincident with sources; radii zero, tiny, "
@@ -487,8 +513,11 @@ def run(ctx):
                 "geo-shaped, plain or masked, fill number / NaN / None.  A case is non-trivial when at least two valid sources compete and at "
                 "least one target receives a source value; distinct = distinct canonical inputs.  Plus integer-lattice kd-tree queries "
                 "(ties, distance == bound) compared with the brute-force reference.")
-    ncases = ctx.n(330, 6000)
+    ncases = ctx.n(700, 8000)
     cases, tagl = [], []
+    for c, tg in fixed_cases():
+        cases.append(c)
+        tagl.append(tg)
     for i in range(ncases):
         c, tg = gen_case(r, ctx, big=(i % 25 == 0))
         cases.append(c)
@@ -501,6 +530,8 @@ def run(ctx):
         obs_all["cases"] += o["cases"]
         if i == 0:
             obs_all["lattice"] = o["lattice"]
+    sys.stderr.write("  [C02] implementation run on %d cases + %d lattice cases: %.1fs\n" % (len(cases), len(lattice), time.time() - t_start))
+    t_or = time.time()
     texts = {"F": [], "Z": []}
     for ci, (case, tg, obs) in enumerate(zip(cases, tagl, obs_all["cases"])):
         for kname in ("region", "radius", "fill"):
@@ -583,7 +614,10 @@ def run(ctx):
         name = "c02_lat_%03d" % (j // LCH)
         index[name] = list(range(j, min(j + LCH, len(L))))
         named.append((name, HDR + "Definition cases : list lattice_case := [\n%s].\nEval vm_compute in (bad_codes lattice_code cases).\n" % ";\n".join(L[j:j + LCH])))
+    sys.stderr.write("  [C02] property oracle + xyz recomputation + case text: %.1fs\n" % (time.time() - t_or))
+    t_coq = time.time()
     res = ctx.coq_eval_many(named, timeout=1500)
+    sys.stderr.write("  [C02] Coq evaluation of %d shards: %.1fs\n" % (len(named), time.time() - t_coq))
     for name, _ in named:
         out, ok = res[name]
         what = "lattice(kd-tree = brute force, strict bound, lower index on ties)" if "_lat_" in name else "nearest"
